@@ -179,6 +179,14 @@ class RTFFigureService:
         while i < len(data) - 9:
             if data[i] == 0xFF:
                 marker = data[i + 1]
+                if marker == 0xFF:
+                    # Fill byte before a marker (ITU T.81 B.1.1.2)
+                    i += 1
+                    continue
+                if marker == 0x01 or 0xD0 <= marker <= 0xD7:
+                    # Stand-alone markers (TEM, RSTn) carry no length field
+                    i += 2
+                    continue
                 # SOF markers contain dimension info
                 sof_markers = {
                     0xC0,
